@@ -43,21 +43,29 @@ var (
 func readMD(md string) mdDoc {
 	var d mdDoc
 	lines := strings.Split(md, "\n")
-	i := 0
-	if len(lines) > 0 && lines[0] == "---" { // YAML front matter
-		for i = 1; i < len(lines) && lines[i] != "---"; i++ {
+	if len(lines) > 0 && lines[0] == "---" { // YAML front matter: up to and including the next "---"
+		i := 1
+		for i < len(lines) && lines[i] != "---" {
+			i++
 		}
-		i++
+		lines = lines[min(i+1, len(lines)):]
 	}
-	tocDone := false
-	for ; i < len(lines); i++ {
+	// the generated table of contents: the first "## Table of Contents" line and everything up to and
+	// including the next "---" are not part of the document (the lines around them are neighbours)
+	for t, l := range lines {
+		if l == "## Table of Contents" {
+			e := t + 1
+			for e < len(lines) && lines[e] != "---" {
+				e++
+			}
+			lines = append(append([]string(nil), lines[:t]...), lines[min(e+1, len(lines)):]...)
+			break
+		}
+	}
+	for i := 0; i < len(lines); i++ {
 		l := lines[i]
 		switch {
 		case strings.TrimSpace(l) == "" || l == "---":
-		case !tocDone && l == "## Table of Contents":
-			for i++; i < len(lines) && lines[i] != "---"; i++ {
-			}
-			tocDone = true
 		case strings.HasPrefix(l, "|"):
 			var block []string
 			for i < len(lines) && strings.HasPrefix(lines[i], "|") {
